@@ -330,6 +330,8 @@ where
         ctx.eval();
         let bx = boxes[(rng.below(5)) as usize];
         let mut rec = IterTarget::<C>::new(bx);
+        // (every second one consumes what it receives with for_each instead of a for loop)
+        rec.log_mut().internal_iteration = want.hash() / 5 % 2 == 0;
         let _ = fb.draw_as_image(&mut rec, o);
         let want_in = egmon::target::restrict(&want, &bx);
         // (and on a native target that skips the colours of invisible points in bulk with nth)
